@@ -337,16 +337,26 @@ def _run(api, text):
         return resolver.resolve()
 
 
+_BASE_OK = {}     # per worker: (api, unfaulted string) -> None if accepted, else the exception name
+
+
 def check_case(case):
     api, text, fault, expect = case['api'], case['text'], case['fault'], case['expect']
     api_name = {'read': 'read_cgsmiles', 'resolve': 'MoleculeResolver.resolve', 'resolve-coarse': 'MoleculeResolver.resolve'}[api]
     key = api + ' ' + text
     nontrivial = case.get('nontrivial', True)
     # the unfaulted string must be accepted by the same API, otherwise the case says nothing about C20
-    try:
-        _run(api, case['base'])
-    except Exception as e:
-        return Outcome(key, False, [], skipped=True, note='unfaulted string rejected: %s' % type(e).__name__)
+    bkey = (api, case['base'])
+    if bkey not in _BASE_OK:
+        if len(_BASE_OK) > 5000:
+            _BASE_OK.clear()
+        try:
+            _run(api, case['base'])
+            _BASE_OK[bkey] = None
+        except Exception as e:
+            _BASE_OK[bkey] = type(e).__name__
+    if _BASE_OK[bkey] is not None:
+        return Outcome(key, False, [], skipped=True, note='unfaulted string rejected: %s' % _BASE_OK[bkey])
     try:
         _run(api, text)
     except Exception as e:
